@@ -45,6 +45,7 @@ func main() {
 	dumpLayout := flag.String("dump-layout", "", "write the extracted wire layout reference to this file")
 	replay := flag.String("replay", "", "replay a violation file")
 	list := flag.Bool("list", false, "list registered properties")
+	dumpCalls := flag.String("dump-calls", "", "debug: print the call facts collected from this entry point")
 	dumpGuards := flag.String("dump-guards", "", "debug: print the guards collected from this entry point")
 	flag.Parse()
 	// go/packages resolves "go" through this process's PATH: force the toolchain that satisfies /repo's go directive
@@ -93,6 +94,23 @@ func main() {
 		if err := dumpLayoutRef(p, *dumpLayout); err != nil {
 			fmt.Println(err)
 			os.Exit(2)
+		}
+		return
+	}
+	if *dumpCalls != "" {
+		p, err := Load(LoadConfig{Repo: *repo, GOARCH: *arch})
+		if err != nil {
+			fmt.Println("load:", err)
+			os.Exit(2)
+		}
+		ge := NewGuardEngine(p, 8)
+		cs, ok := ge.EntryCalls(*dumpCalls)
+		if !ok {
+			fmt.Println("entry not found")
+			os.Exit(2)
+		}
+		for _, cf := range cs {
+			fmt.Printf("%s  %s\n", p.Pos(cf.Pos), cf.String())
 		}
 		return
 	}
